@@ -58,8 +58,8 @@ def dump_mir(src):
         fcntl.flock(lock, fcntl.LOCK_UN)
 
 
-def find_fn(mir, header_re):
-    m = re.search(r"^fn " + header_re + r"\(.*?\) -> .*? \{$", mir, re.M)
+def find_fn(mir, header_re, first_arg_re=""):
+    m = re.search(r"^fn " + header_re + r"\(" + first_arg_re + r".*?\) -> .*? \{$", mir, re.M)
     if not m:
         raise Untranslatable(f"function matching /{header_re}/ not found in MIR")
     start = m.start()
@@ -818,8 +818,9 @@ PROP_KERNELS = {
 
 
 def run_for_property(prop, src, tier):
-    kernels = PROP_KERNELS.get(prop)
-    if not kernels:
+    import miragg
+    kernels = PROP_KERNELS.get(prop, [])
+    if not kernels and prop not in miragg.SITES:
         return None
     t0 = time.time()
     ob = Obligations()
@@ -838,6 +839,9 @@ def run_for_property(prop, src, tier):
             elif k == "emit_code":
                 f, _n = check_emit_code(mir, src, ob)
                 fns += f
+        if prop in miragg.SITES:
+            agg = miragg.run(prop, mir, src, ob)
+            fns += agg.fns
     except Untranslatable as e:
         return {"status": "inconclusive", "reason": "not translatable: " + str(e), "functions": fns,
                 "queries": len(ob.items) * len(SOLVERS), "obligations_discharged": 0, "obligations": ob.items,
